@@ -1001,12 +1001,15 @@ class TreeTransform(Generic[TreeFnT]):
       batch_size: int = 0,
   ) -> TreeTransform:
     """Assign some key value pairs back to the input mapping."""
-    if output_keys:
+    # Index(0), 0 and Key() are falsy, yet valid keys: only None and () mean
+    # "not given".
+    if output_keys is not None and output_keys != ():  # pylint: disable=g-explicit-bool-comparison
       raise ValueError(
           '`output_keys` is deprecated, use positional arguments or'
           ' `assign_keys` instead.'
       )
-    assign_keys = assign_keys or output_keys
+    if assign_keys is None:
+      assign_keys = ()
     fn = tree_fns.Assign(
         output_keys=assign_keys,
         fn=fn,
